@@ -26,7 +26,7 @@ class Controller:
         self.snapshot = snapshot
         self.names = {}
         self.last_event = {}
-        self.patience = 60
+        self.patience = 900      # a step includes whole DuckDB executions: generous, the machine may be loaded
 
     # ---- called inside engine threads
     def on_yield(self, point, info):
